@@ -831,6 +831,17 @@ impl rustc_driver::Callbacks for Cb {
             }
             let b = cx.body(ldid, body);
             fns.push(format!("{{{},{}}}", head, b));
+            // promoted constants (e.g. `&Some("slice")`) are separate bodies; emit them so that their literals are visible
+            for (pi, pbody) in tcx.promoted_mir(did).iter_enumerated() {
+                let ph = format!(
+                    "\"path\":{},\"kind\":\"promoted\",\"sp\":{},\"root\":{}",
+                    js(&format!("{}::{{promoted#{}}}", cx.path(did), pi.index())),
+                    cx.span(tcx.def_span(did)),
+                    js(&cx.path(did))
+                );
+                let pb = cx.body(ldid, pbody);
+                fns.push(format!("{{{},{}}}", ph, pb));
+            }
         }
 
         let files: Vec<String> = cx.file_list.iter().map(|f| js(f)).collect();
